@@ -11,7 +11,7 @@
 From Coq Require Import ZArith List Reals.
 From Flocq Require Import Core BinarySingleNaN.
 From Perf Require Import Base.Bytes Base.B64 Base.FmtFixed Model.Scale Model.ScaleSpec
-     Proofs.FmtFixed Proofs.B64Flocq Proofs.Scale Proofs.ScaleMore Proofs.ScaleError Proofs.ScaleClass
+     Proofs.FmtFixed Proofs.B64Flocq Proofs.Scale Proofs.ScaleMore Proofs.ScaleError Proofs.ScaleRefuted Proofs.ScaleClass
      Model.RowScale Proofs.RowScale.
 Import ListNotations.
 Local Open Scope Z_scope.
@@ -79,7 +79,8 @@ Print Assumptions C10_boundary_table_ok.
     for every valid positive binary64 v with .99995e-9 <= v < 999.95e12
     (binary: .99995 <= v < .99995 * 2^50) the scale has 1..3 decimals and the
     printed mantissa * 10^prec is in [1000, 9999] (binary, one decimal: <= 10239,
-    i.e. mantissa < 1024) *)
+    i.e. mantissa < 1024); [four_sig] demands both, i.e. the mantissa is in
+    [1, 1000) resp. [1, 1024) ([C10_four_sig_mantissa_range]) *)
 Theorem C10_four_sig_digits : forall cls v,
   cls <> BadClass ->
   valid_binary 53 1024 v = true -> is_pos_finite v = true -> in_range4 cls v = true ->
@@ -87,8 +88,14 @@ Theorem C10_four_sig_digits : forall cls v,
     /\ fx_signed (b64_div v (s_factor s)) (Z.to_nat (s_prec s)) = Some n
     /\ four_sig cls (s_prec s) n = true
     /\ 1 <= s_prec s <= 3.
-Proof. exact four_sig_digits. Qed.
+Proof. exact four_sig_digits_p. Qed.
 Print Assumptions C10_four_sig_digits.
+
+Theorem C10_four_sig_mantissa_range : forall cls p n,
+  four_sig cls p n = true ->
+  10 ^ p <= n /\ n < (match cls with Binary => 1024 | _ => 1000 end) * 10 ^ p.
+Proof. exact four_sig_mantissa_range. Qed.
+Print Assumptions C10_four_sig_mantissa_range.
 
 (** the same for either sign, on the text that Scale/Format returns *)
 Theorem C10_four_sig_digits_text : forall cls (v : spec_float) shortest,
@@ -98,7 +105,7 @@ Theorem C10_four_sig_digits_text : forall cls (v : spec_float) shortest,
     /\ format shortest s v = fmt_sign (b64_signbit v) ++ fmt_mag n (Z.to_nat (s_prec s)) ++ s_prefix s
     /\ four_sig cls (s_prec s) n = true
     /\ 1 <= s_prec s <= 3.
-Proof. exact four_sig_digits_text. Qed.
+Proof. exact four_sig_digits_text_p. Qed.
 Print Assumptions C10_four_sig_digits_text.
 
 (** ** prefix boundaries coincide with how the mantissa rounds: the mantissa
@@ -135,9 +142,14 @@ Theorem C10_three_sig_digits_below : forall cls (v : spec_float),
 Proof. exact three_sig_digits_below. Qed.
 Print Assumptions C10_three_sig_digits_below.
 
-(** ** half a unit of the last printed digit, the rounding of the binary64
-    quotient made explicit (n = printed mantissa * 10^p):
-      | n / 10^p - |v| / f |  <=  1/2 * 10^-p + 2^-53 * |v| / f + 2^-1075 *)
+(** ** half a unit of the last printed digit.  What holds of the code is the
+    bound with the rounding of the binary64 quotient explicit and against the
+    binary64 factor f (n = printed mantissa * 10^p):
+      | n / 10^p - |v| / f |  <=  1/2 * 10^-p + 2^-53 * |v| / f + 2^-1075
+    The clause of the property - half a unit against the prefix's exact factor,
+    no further term - is REFUTED: [C10_half_unit_refuted],
+    [C10_half_unit_shared_refuted] below (known finding
+    C10_quotient_rounded_before_printing). *)
 Theorem C10_half_unit_error : forall (v f : b64) (p : nat) s n,
   valid_binary 53 1024 v = true -> valid_binary 53 1024 f = true ->
   sf_finite v = true -> is_pos_finite f = true ->
@@ -147,6 +159,42 @@ Theorem C10_half_unit_error : forall (v f : b64) (p : nat) s n,
       + bpow radix2 (-53) * (Rabs (SF2R radix2 v) / SF2R radix2 f) + bpow radix2 (-1075))%R.
 Proof. exact half_unit_error. Qed.
 Print Assumptions C10_half_unit_error.
+
+(** refuted at full strength: 0.10105 prints as "101.0m" although 101.1m is the
+    mantissa within half a unit; a value sharing the scale of a much smaller one
+    prints the digits of the rounded quotient.  In both the excess stays within
+    the allowance [quotient_slack] of [known_ok]; for binary prefixes and no
+    prefix that allowance is nothing. *)
+Theorem C10_half_unit_refuted :
+  let v := b64_of_dec false 10105 (-5) in
+  sf_finite v = true /\
+  scale (fun _ => []) v Decimal = Some (bs "101.0m") /\
+  exact_factor Decimal (bs "m") = Some (1, 1000) /\
+  half_unit_of 0 1 v 1010 1 1 1000 = false /\
+  half_unit_of 0 1 v 1011 1 1 1000 = true /\
+  (let '(sn, sd) := quotient_slack 1 1000 in half_unit_of sn sd v 1010 1 1 1000) = true.
+Proof. exact half_unit_refuted. Qed.
+Print Assumptions C10_half_unit_refuted.
+
+Theorem C10_half_unit_shared_refuted :
+  let lo := b64_of_dec false 4940706476680601 (-12) in
+  let v := b64_of_dec false 7335123946664616 2 in
+  exists s, sf_finite v = true /\
+  common_scale [lo; v] Decimal = Some s /\
+  s_prec s = 3 /\ s_prefix s = bs "k" /\
+  exact_factor Decimal (bs "k") = Some (1000, 1) /\
+  format (fun _ => []) s v = bs "733512394666461.625k" /\
+  half_unit_of 0 1 v 733512394666461625 3 1000 1 = false /\
+  half_unit_of 0 1 v 733512394666461568 3 1000 1 = true /\
+  (let '(sn, sd) := quotient_slack 1000 1 in half_unit_of sn sd v 733512394666461625 3 1000 1) = true.
+Proof. exact half_unit_shared_refuted. Qed.
+Print Assumptions C10_half_unit_shared_refuted.
+
+Theorem C10_quotient_slack_binary :
+  Forall (fun '(_, (fn, fd)) => quotient_slack fn fd = (0, 1)) iec_exact /\
+  quotient_slack 1 1 = (0, 1).
+Proof. exact quotient_slack_binary. Qed.
+Print Assumptions C10_quotient_slack_binary.
 
 (** ** a shared scale is that of the least non-zero magnitude *)
 Theorem C10_min_nonzero_spec : forall vals,
@@ -164,8 +212,14 @@ Theorem C10_common_scale_min : forall vals cls,
 Proof. exact common_scale_min_thm. Qed.
 Print Assumptions C10_common_scale_min.
 
-(** ** ClassOf: Binary iff a numerator token is B, MB or bytes; and the
-    tokenising parser agrees with the one-pass specification *)
+(** ** ClassOf.  The property: Binary exactly when bytes appear in the
+    numerator - [spec_class], one pass over the text with every spelling of
+    bytes ([spec_bytes_tok]: B with or without an SI/IEC prefix, byte(s),
+    Byte(s)).  The code knows three spellings: ClassOf is Binary iff a numerator
+    token is B, MB or bytes, which is the same pass with those three
+    ([narrow_class]).  Hence: sound (Binary only if bytes are in the numerator),
+    exact on units that spell bytes in no other way, and REFUTED at full strength
+    on "KiB/s" (known finding C10_classof_byte_spellings). *)
 Theorem C10_class_binary_iff : forall u,
   class_of u = Binary <->
   exists t, In (t, false) (unit_tokens (S (length u)) u false)
@@ -173,9 +227,29 @@ Theorem C10_class_binary_iff : forall u,
 Proof. exact class_binary_iff. Qed.
 Print Assumptions C10_class_binary_iff.
 
-Theorem C10_class_of_spec : forall u, class_of u = spec_class u.
-Proof. exact class_of_spec. Qed.
-Print Assumptions C10_class_of_spec.
+Theorem C10_class_of_narrow : forall u, class_of u = narrow_class u.
+Proof. exact class_of_narrow. Qed.
+Print Assumptions C10_class_of_narrow.
+
+Theorem C10_spec_class_binary_iff : forall u,
+  spec_class u = Binary <->
+  exists t, In (t, false) (unit_tokens (S (length u)) u false) /\ spec_bytes_tok t = true.
+Proof. exact spec_class_binary_iff. Qed.
+Print Assumptions C10_spec_class_binary_iff.
+
+Theorem C10_class_of_sound : forall u, class_of u = Binary -> spec_class u = Binary.
+Proof. exact class_of_sound. Qed.
+Print Assumptions C10_class_of_sound.
+
+Theorem C10_class_of_complete_on : forall u,
+  (forall t, In (t, false) (unit_tokens (S (length u)) u false) -> spec_bytes_tok t = true -> is_bytes_tok t = true) ->
+  class_of u = spec_class u.
+Proof. exact class_of_complete_on. Qed.
+Print Assumptions C10_class_of_complete_on.
+
+Theorem C10_class_of_refuted : exists u, spec_class u = Binary /\ class_of u = Decimal.
+Proof. exact class_of_refuted. Qed.
+Print Assumptions C10_class_of_refuted.
 
 (** ** NoOpScaler: if the library's shortest formatting of v reads back to v
     (hypothesis on strconv, checked on every generated case together with
@@ -243,6 +317,11 @@ Example C10_examples :
   common_scale [b64_of_Z 5000; b64_zero; b64_of_dec true 25 (-1)] Decimal = Some (mkScaler 3 b64_one []) /\
   (* classes *)
   class_of (bs "MB/s") = Binary /\ class_of (bs "ns/B") = Decimal /\ class_of (bs "sec/B*B") = Binary /\
+  spec_class (bs "MB/s") = Binary /\ spec_class (bs "ns/B") = Decimal /\ spec_class (bs "GiB/s") = Binary /\
+  spec_class (bs "byte/op") = Binary /\ spec_class (bs "op/KB") = Decimal /\ spec_class (bs "b/s") = Decimal /\
+  (* a unit as [C10_class_of_complete_on] assumes *)
+  forallb (fun '(t, d) => d || negb (spec_bytes_tok t) || is_bytes_tok t)
+          (unit_tokens 9 (bs "MB/s*B-x") false) = true /\
   (* shortest formatting hypothesis: "1.5" reads back to 1.5 *)
   (let v := b64_of_dec false 15 (-1) in
    shortest_ok false 15 1 v = true /\ valid_binary 53 1024 v = true /\ sf_finite v = true) /\
